@@ -1166,19 +1166,42 @@ func ruleBindInner(p *Program, r *Reporter) {
 	// binders: Environment methods (string, Object) called from the interpreter,
 	// other than the global Set
 	binders := map[*ssa.Function][]ssa.CallInstruction{}
-	for _, b := range a.vmRun.Blocks {
-		for _, ins := range b.Instrs {
-			ci, ok := ins.(ssa.CallInstruction)
-			if !ok {
-				continue
-			}
-			cal := ci.Common().StaticCallee()
-			if cal == nil || cal == envSet || !recvNamed(cal, "environment", "Environment") {
-				continue
-			}
-			ps := sigParams(cal)
-			if len(ps) == 2 && isObjectIface(ps[1]) {
-				binders[cal] = append(binders[cal], ci)
+	// (the interpreter, and the parts of its handlers that have a function of
+	// their own: `vm.declare(name, value)`)
+	scan := []*ssa.Function{a.vmRun}
+	for f := range interpreterOnly(p, a) {
+		scan = append(scan, f)
+	}
+	sort.Slice(scan[1:], func(i, j int) bool { return p.FnName(scan[1+i]) < p.FnName(scan[1+j]) })
+	for _, sf := range scan {
+		for _, b := range sf.Blocks {
+			for _, ins := range b.Instrs {
+				ci, ok := ins.(ssa.CallInstruction)
+				if !ok {
+					continue
+				}
+				cal := ci.Common().StaticCallee()
+				if cal == nil || cal == envSet || !recvNamed(cal, "environment", "Environment") {
+					continue
+				}
+				ps := sigParams(cal)
+				if len(ps) == 2 && isObjectIface(ps[1]) {
+					if sf != a.vmRun {
+						// made on behalf of the handlers that call this part: one
+						// obligation for each of them
+						lifted := 0
+						for _, site := range staticCallSites(p, sf) {
+							if c2, ok := site.(ssa.CallInstruction); ok {
+								binders[cal] = append(binders[cal], c2)
+								lifted++
+							}
+						}
+						if lifted > 0 {
+							continue
+						}
+					}
+					binders[cal] = append(binders[cal], ci)
+				}
 			}
 		}
 	}
@@ -1207,8 +1230,8 @@ func ruleBindInner(p *Program, r *Reporter) {
 			innermost, why = false, "the binder stores nothing"
 		}
 		for _, s := range sites {
-			key := siteKey(p, a.vmRun, s.Pos(), "binds in the innermost scope via "+fn.Name())
-			if cond := envDependentGuard(p, a.vmRun, s, er.scopeField); cond != nil && innermost {
+			key := siteKey(p, s.Parent(), s.Pos(), "binds in the innermost scope via "+fn.Name())
+			if cond := envDependentGuard(p, s.Parent(), s, er.scopeField); cond != nil && innermost {
 				r.Fail(key, p.Pos(cond.Pos()), "whether the name is bound in the new scope depends on what the scopes already hold (a query of the scope stack guards the binding): a `local`, parameter or loop variable whose name exists in the caller, in another activation of the same function or in an enclosing loop is then not bound at all, and the callee reads and overwrites that other variable — recursion computes with one shared variable")
 				continue
 			}
@@ -1810,6 +1833,9 @@ func balancedState(p *Program, k string) string {
 					if listPop(v.Call.StaticCallee()) && len(v.Call.Args) == 1 && fieldKey(v.Call.Args[0]) == fk {
 						pops++
 					}
+					if v.Call.StaticCallee() == nil && !v.Call.IsInvoke() && defersUndoHandedBack(root, fk) {
+						dels++
+					}
 				case *ssa.Call:
 					// the field kept as a list: an element pushed, the pop deferred
 					if listPush(v.Call.StaticCallee()) && fieldKey(v.Call.Args[0]) == fk {
@@ -1895,6 +1921,9 @@ func onlyDeferred(p *Program, fn *ssa.Function) bool {
 // hasDeferredUndo: root defers (directly, or in a deferred closure) the
 // decrement of the counter / the delete from the set.
 func hasDeferredUndo(root *ssa.Function, fk, kind string) bool {
+	if kind == "delete" && defersUndoHandedBack(root, fk) {
+		return true
+	}
 	for _, b := range root.Blocks {
 		for _, ins := range b.Instrs {
 			d, ok := ins.(*ssa.Defer)
@@ -2249,6 +2278,8 @@ func ruleStateCensus(p *Program, r *Reporter) {
 			r.OkNT("state "+k, p.Pos(g.pos), why+"; written by "+strings.Join(fl, ", "))
 		} else if why := balancedState(p, k); why != "" {
 			r.OkNT("state "+k, p.Pos(g.pos), why+"; written by "+strings.Join(fl, ", "))
+		} else if why := idempotentCache(p, k); why != "" {
+			r.OkNT("state "+k, p.Pos(g.pos), why+"; written by "+strings.Join(fl, ", "))
 		} else {
 			r.Fail("state "+k, p.Pos(g.pos), "code reachable from the interpreter ("+strings.Join(fl, ", ")+") writes this state and no class (persistent by design / reset at entry / restored on exit / private copy / guarded cache) is recorded for it: it can carry information from one run to the next")
 		}
@@ -2328,4 +2359,61 @@ func storesThrough(g *ssa.Function, prm *ssa.Parameter) bool {
 		}
 	}
 	return false
+}
+
+// idempotentCache: the state is a map (kept in a field) into which every
+// insertion stores, under a key, what a pure function of the standard library
+// made of that very key (a compiled regular expression under its source): an
+// entry says nothing about the runs that came before except that the key was
+// seen, and a later run computes the same value.  (That it is guarded against
+// concurrent use is R-GLOBALS' business.)
+func idempotentCache(p *Program, k string) string {
+	if !strings.HasPrefix(k, "map ") {
+		return ""
+	}
+	fk := strings.TrimPrefix(k, "map ")
+	n := 0
+	for _, fn := range p.LibFns {
+		for _, b := range fn.Blocks {
+			for _, ins := range b.Instrs {
+				mu, ok := ins.(*ssa.MapUpdate)
+				if !ok {
+					continue
+				}
+				ld, ok := mu.Map.(*ssa.UnOp)
+				if !ok || fieldKey(ld.X) != fk {
+					continue
+				}
+				n++
+				pure := false
+				for _, o := range origins(mu.Value) {
+					var cl *ssa.Call
+					switch x := o.(type) {
+					case *ssa.Extract:
+						cl, _ = x.Tuple.(*ssa.Call)
+					case *ssa.Call:
+						cl = x
+					}
+					if cl == nil || cl.Call.StaticCallee() == nil {
+						return ""
+					}
+					switch cl.Call.StaticCallee().String() {
+					case "regexp.Compile", "regexp.MustCompile", "regexp.CompilePOSIX":
+						if len(cl.Call.Args) == 1 && cl.Call.Args[0] == mu.Key {
+							pure = true
+							continue
+						}
+					}
+					return ""
+				}
+				if !pure {
+					return ""
+				}
+			}
+		}
+	}
+	if n == 0 {
+		return ""
+	}
+	return fmt.Sprintf("idempotent cache: each of the %d insertion(s) stores what regexp.Compile made of the key itself", n)
 }
